@@ -6,7 +6,9 @@ package main
 // share one signature and different defects get different ones.
 
 import (
+	"fmt"
 	"regexp"
+	"strconv"
 	"strings"
 )
 
@@ -190,12 +192,13 @@ func panicSignature(msg, trace string) (sig, where string) {
 
 var rePanicLine = regexp.MustCompile(`(?m)^panic: (.*)$`)
 var reFatalLine = regexp.MustCompile(`(?m)^fatal error: (.*)$`)
+var reOOM = regexp.MustCompile(`cannot allocate (\d+)-byte block \((\d+) in use\)`)
 
 // crashSignature buckets the death of a worker from its stderr tail.
 func crashSignature(stderr string, timedOut bool, step string) (sig, where, summary string) {
 	if timedOut {
 		// no stack is available for a killed worker; the step tells where it was
-		return "C10/hang/" + stepClass(step), "", "no answer within the per-item timeout during " + step
+		return "C10/nonterminating/" + stepClass(step), "", "no answer within the per-item timeout during step " + step
 	}
 	// use the last crash in the tail
 	if m := rePanicLine.FindAllStringSubmatchIndex(stderr, -1); len(m) > 0 {
@@ -213,6 +216,23 @@ func crashSignature(stderr string, timedOut bool, step string) (sig, where, summ
 		frames := ollamaFrames(rest)
 		fn, loc := site(frames)
 		if strings.Contains(msg, "out of memory") || strings.Contains(msg, "cannot allocate") {
+			if all := reOOM.FindAllStringSubmatch(stderr, -1); len(all) > 0 {
+				m := all[len(all)-1]
+				req, _ := strconv.ParseUint(m[1], 10, 64)
+				inUse, _ := strconv.ParseUint(m[2], 10, 64)
+				if req < 64<<20 && inUse > 128<<20 {
+					// the heap was not exhausted by one request but by accumulation: the
+					// allocating site is incidental (it differs from run to run); the
+					// defect is a loop that does not terminate, named by the step it ran in
+					var chain []string
+					for _, f := range frames {
+						chain = append(chain, f.Func)
+					}
+					return "C10/nonterminating/" + stepClass(step), loc,
+						fmt.Sprintf("memory exhausted by accumulation (%d bytes in use when a %d-byte request failed under the 1 GiB limit) during step %s; stack: %s",
+							inUse, req, step, strings.Join(chain, " <- "))
+				}
+			}
 			return "C10/alloc/" + fn + "/" + allocWhat(fn), loc, "fatal error: " + msg + " (1 GiB address-space limit)"
 		}
 		return "C10/fatal/" + fn + "/" + normMsg(msg), loc, "fatal error: " + msg
@@ -226,6 +246,9 @@ func stepClass(step string) string {
 	}
 	if i := strings.IndexByte(step, ' '); i >= 0 {
 		step = step[:i]
+	}
+	if step == "create-stream" {
+		step = "create"
 	}
 	return step
 }
